@@ -170,6 +170,8 @@ struct State {
     seq: u32,
     calls_in_op: u32,
     retry_alarmed: bool,
+    /// requests above this size are refused ("exhaustion"); MACHINE_BYTES unless a workload raises it
+    machine: usize,
     sentinel: usize,
     min_addr: usize,
     max_addr: usize,
@@ -197,6 +199,7 @@ static mut STATE: State = State {
     seq: 0,
     calls_in_op: 0,
     retry_alarmed: false,
+    machine: MACHINE_BYTES,
     sentinel: 0,
     min_addr: usize::MAX,
     max_addr: 0,
@@ -314,10 +317,16 @@ pub fn begin_run(placement: Placement) {
         s.seq = 0;
         s.calls_in_op = 0;
         s.retry_alarmed = false;
+        s.machine = MACHINE_BYTES;
         s.min_addr = usize::MAX;
         s.max_addr = 0;
         s.quarantined_bytes = 0;
     });
+}
+
+/// raise the simulated machine size for the run in progress (reset by the next begin_run)
+pub fn set_machine_bytes(n: usize) {
+    with_state(|s| s.machine = n);
 }
 
 pub fn set_plan(arena: u32, plan: Plan) {
@@ -513,7 +522,7 @@ impl State {
             }
             alarmed_grant = true;
         }
-        let exhausted = size > MACHINE_BYTES || align > MACHINE_MAX_ALIGN;
+        let exhausted = size > self.machine || align > MACHINE_MAX_ALIGN;
         if exhausted {
             if alarmed_grant && self.calls_in_op > 2 * RETRY_ALARM {
                 // cannot grant and the call does not stop asking: report and die; the driver
